@@ -18,6 +18,14 @@ open Neutrino.GetCFilter
 #print axioms C05_no_query_above_tip
 #print axioms C05_prepared_target_committed
 #print axioms C05_source_facts
+#print axioms C05_store_source_facts
+#print axioms C05_db_read_is_snapshot
+#print axioms C05_sound_concurrent_writer
+#print axioms C05_decode_after_tx_counterexample
+#print axioms C05_cache_fill_validated
+#print axioms C05_read_ahead_checked
+#print axioms C05_read_ahead_unchecked_counterexample
+#print axioms C05_read_ahead_stale_counterexample
 #print axioms Neutrino.GetCFilter.C05_trans_prepareCFiltersQuery
 #print axioms Neutrino.GetCFilter.C05_trans_range
 #print axioms Neutrino.GetCFilter.C05_trans_no_query_above_tip
